@@ -612,17 +612,25 @@ func runKfLife(c *core.Ctx) (bool, error) {
 	return true, err
 }
 
-func runLife(c *core.Ctx, t *core.Trace) error {
+func runLife(c *core.Ctx) error {
 	if !c.WantGen("life") {
 		return nil
 	}
 	per := c.Pick(6, 60)
+	chunk := c.Pick(400, 800) // histories per trace file (the files are validated in parallel)
+	var t *core.Trace
+	inFile := 0
 	for ti, pt := range ptypes {
 		for i := 0; i < per; i++ {
 			cas := ti*1000 + i
 			if !c.Want("life", cas) {
 				continue
 			}
+			if t == nil || inFile >= chunk {
+				t = c.Trace(fmt.Sprintf("c03_life_%03d", ti), "Trace_PackCodec")
+				inFile = 0
+			}
+			inFile++
 			r := c.Rng("life", cas)
 			mode, lf := 2, 0
 			switch {
@@ -800,10 +808,11 @@ func holdBoxes(c *core.Ctx, h *hist, r *rand.Rand, cas int) error {
 	return nil
 }
 
-func runHold(c *core.Ctx, t *core.Trace) error {
+func runHold(c *core.Ctx) error {
 	if !c.WantGen("hold") {
 		return nil
 	}
+	t := c.Trace("c03_hold", "Trace_PackCodec")
 	for cas := 0; cas < c.Pick(40, 500); cas++ {
 		if !c.Want("hold", cas) {
 			continue
